@@ -366,6 +366,11 @@ private:
     void
     destroyWrapperNode(XalanNode*   theNode);
 
+    // Everything destroyWrapper() does, except creating the new
+    // navigator of the document.  Does not allocate.
+    void
+    destroyWrapperNodes();
+
     // Not implemented...
     XercesDocumentWrapper(const XercesDocumentWrapper&  theSource);
 
